@@ -791,7 +791,10 @@ def main():
         violations=len(violations),
     )
     os.makedirs(EVID, exist_ok=True)
-    json.dump(ev, open(os.path.join(EVID, f"{prop}.json"), "w"), indent=1)
+    # a run restricted with --only is a development aid: it must not replace the property's evidence
+    evname = f"{prop}.json" if not a.only else os.path.join("replay", f"partial-{prop}.json")
+    os.makedirs(os.path.join(EVID, "replay"), exist_ok=True)
+    json.dump(ev, open(os.path.join(EVID, evname), "w"), indent=1)
 
     # recorded findings that only a native run can exhibit (far beyond the byte bounds)
     for kf in known:
